@@ -78,6 +78,9 @@ CHECKS["C06"] = dict(
     jobs=[
         dict(harness="regions", prop="canon", cases=T(5000, 80000), procs=T(6, 16)),
         dict(harness="regions_asan", prop="canon", cases=T(1200, 20000), procs=T(2, 4)),
+          # regions imported from a1 bitmaps must be canonical too (C07's bitmap property checks the rectangle list against the
+          # canonical builder, selfcheck and "single rectangle without a list")
+          dict(harness="regions", prop="bitmap", cases=T(4000, 60000), procs=T(1, 2), tag="c06_bitmap"),
           dict(harness="fz_regions", prop="canon", kind="fuzz", cases=T(40000, 1500000), procs=T(2, 3), max_len=400)],
     floor=T(8000, 200000), nt_floor=T(500, 5000),
     assumptions=["canonical-form predicate and canonical builder in harness/ref_region.hpp are written from the property statement"],
